@@ -1,4 +1,5 @@
 import XcmModel.Life
+import XcmModel.Generated.Owner
 /-!
 # C08 — no resource leaks or double releases on any lifecycle path (ladders of xcm.c)
 
@@ -282,5 +283,21 @@ theorem C08_histories_balanced (ops : List Op) :
 
 /-- non-vacuity: a blocking accept that is restarted twice and then fails in finish holds nothing afterwards -/
 example : (({} : Ledger).run (Life.accept true false 8 [none, none, some EAGAIN, none, none, some EAGAIN, none, none, none, some 104]).2) = {} := by decide
+
+/-! ### cleanup locality at the source level (table regenerated from /repo on every run by extract/ext_owner.py)
+
+`xcm_cleanup` in a forked child reaches the destructors with `owner = false`.  The epoll instances (and the files on disk)
+are shared with the owner, so on that path no xpoll registration may be changed and nothing may be unlinked. -/
+
+/-- every call that changes a shared object inside a function with an `owner` parameter is under an `if (owner ...)` -/
+theorem C08_cleanup_sites_guarded : ∀ s ∈ Generated.ownerSites, s.guarded = true := by decide
+
+/-- and the flag is handed on unchanged (never a literal `true`) to every callee that takes one -/
+theorem C08_cleanup_delegations_pass_owner :
+    ∀ d ∈ Generated.ownerDelegations, d.arg = "owner" ∨ d.arg = "false" ∨ d.guarded = true := by decide
+
+/-- non-vacuity: the table is not empty and covers the control interface, the timers and the transports -/
+example : Generated.ownerSites.length ≥ 9 ∧ "remove_client" ∈ Generated.ownerFunctions ∧ "timer_mgr_destroy" ∈ Generated.ownerFunctions := by
+  decide
 
 end XcmModel.C08
